@@ -181,6 +181,11 @@ fn parse_prefix<const N: usize>() {
 fn c14_range_parse_prefix() {
     parse_prefix::<0>();
     parse_prefix::<3>();
+    parse_prefix::<5>();
+}
+
+#[kani::proof]
+#[kani::unwind(22)]
+fn c14_range_parse_prefix6() {
     parse_prefix::<6>();
-    parse_prefix::<8>();
 }
